@@ -53,6 +53,16 @@ def h_vqe_rdm(env, opts, patt, sum_spin, canary=False, trace_mode="ne"):
         with alloc(env):
             molecule = symmol.molecule(2, 2, 0, const, h, eri, env.symbolic, frozen=None)
         opts["initial_var_params"] = [0.25, -0.5]
+    elif key == "SYM2U":
+        # unrestricted reference: 2 orbitals / 2 electrons with DIFFERENT symbolic alpha and beta integrals (get_rdm_uhf route)
+        from harness.c04 import _sym8, _sym_ab
+        const = env.real("E0", -2, 2)
+        ha, eaa = _sym8(env, 2, "a")
+        hb, ebb = _sym8(env, 2, "b")
+        eab = _sym_ab(env, 2)
+        with alloc(env):
+            molecule = symmol.molecule(2, 2, 0, const, ha, eaa, env.symbolic, frozen=None, uhf=True, h_b=hb, eri_ab=eab, eri_bb=ebb)
+        opts["initial_var_params"] = "ones"
     elif key == "SYM3T":
         # 3 orbitals / 2 electrons / TRIPLET (restricted open-shell reference) with symbolic integrals
         const, h, eri = sym_integrals(env, 3)
@@ -71,7 +81,7 @@ def h_vqe_rdm(env, opts, patt, sum_spin, canary=False, trace_mode="ne"):
         th = vec(env, "th", patt)
         with sym_alloc(env):
             e = s.energy_estimation(th)
-            r1, r2 = s.get_rdm(th, sum_spin=sum_spin)
+            r1, r2 = s.get_rdm_uhf(th) if getattr(molecule, "uhf", False) else s.get_rdm(th, sum_spin=sum_spin)
             if trace_mode == "state":
                 nq_ = s.ansatz.circuit.width
                 amps = c08.decode_amplitudes(c08.full_circuit_state(s, nq_), molecule.n_active_sos, opts.get("qubit_mapping", "jw"),
@@ -79,6 +89,17 @@ def h_vqe_rdm(env, opts, patt, sum_spin, canary=False, trace_mode="ne"):
     finally:
         c02._restore()
     n_e = molecule.n_active_electrons
+    if getattr(molecule, "uhf", False):
+        # per-spin blocks: ([alpha, beta], [alpha-alpha, alpha-beta, beta-beta]); energy identity and the electron count per spin
+        with sym_alloc(env):
+            e2 = molecule.energy_from_rdms(list(r1), list(r2))
+        env.check_eq(e2, e, "UHF: energy_from_rdms(get_rdm(theta)) == energy_estimation(theta)")
+        tr = R.C(0)
+        for blk in r1:
+            for i in range(blk.shape[0]):
+                tr = tr + blk[i, i]
+        env.check_eq(tr, sum(n_e) if isinstance(n_e, (list, tuple)) else n_e, "UHF: traces of the two 1-RDM blocks add up to the number of active electrons")
+        return
     if sum_spin:
         with sym_alloc(env):
             e2 = molecule.energy_from_rdms(r1, r2)
@@ -329,6 +350,10 @@ def shapes(tier, seed):
         out.append(Shape(f"vqe_rdm/sym3-triplet/{mp}/utd={int(utd)}", h_vqe_rdm,
                          dict(opts=dict(molecule_key="SYM3T", qubit_mapping=mp, up_then_down=utd, ansatz=BuiltInAnsatze.UCCSD),
                               patt=(None if tier == "thorough" else "sp"), sum_spin=True, trace_mode=tm), modules=MODS, max_paths=32))
+    for mp, utd in (("jw", False),) + ((("bk", True), ("scbk", True)) if tier == "thorough" else ()):
+        out.append(Shape(f"vqe_rdm/sym2-uhf/{mp}/utd={int(utd)}", h_vqe_rdm,
+                         dict(opts=dict(molecule_key="SYM2U", qubit_mapping=mp, up_then_down=utd, ansatz=BuiltInAnsatze.UCCSD), patt=None, sum_spin=True),
+                         modules=MODS, max_paths=32))
     out.append(Shape("vqe_rdm/sym2/jw/refstate-override", h_vqe_rdm,
                      dict(opts=dict(molecule_key="SYM2", qubit_mapping="jw", up_then_down=False, ansatz=BuiltInAnsatze.UCCSD, ref_state=[1, 0, 0, 1]),
                           patt="ss", sum_spin=True), modules=MODS, max_paths=32))
